@@ -102,6 +102,7 @@ def main():
            "ran": []}
     env = {"CARGO_TARGET_DIR": tgt}
     ok = True
+    cur_patch = ""
     try:
         # demo files
         demo = os.path.join(seed, "demo")
@@ -136,6 +137,9 @@ def main():
         if rc != 0:
             ok = False
         else:
+            # the patch as it applies to the current HEAD (demo files are untracked, so not included)
+            _, cur_patch, _ = sh("git diff", wt)
+            cur_patch = subprocess.run("git diff", cwd=wt, shell=True, capture_output=True, text=True).stdout
             rc, out, s = sh(cmd, wt, env=env)
             rec["ran"].append({"what": "demo with patch (must fail)", "cmd": cmd, "rc": rc, "s": s, "tail": out[-600:]})
             if rc == 0:
@@ -188,7 +192,10 @@ def main():
     if ok:
         shutil.rmtree(dst, ignore_errors=True)
         os.makedirs(dst)
-        shutil.copy(os.path.join(seed, "patch.diff"), dst)
+        if cur_patch.strip():
+            open(os.path.join(dst, "patch.diff"), "w").write(cur_patch)
+        else:
+            shutil.copy(os.path.join(seed, "patch.diff"), dst)
         shutil.copytree(os.path.join(seed, "demo"), os.path.join(dst, "demo"))
         m = dict(meta)
         m["validation"] = rec
